@@ -206,6 +206,15 @@ def eval_transform(case, drv):
         return {"corr_ok": True, "prop_ok": False, "branch": "transform", "detail": detail}
     vals = res.transpose("e", expect_dim).values
     corr_ok = True
+    # naming against the Lean model of _parse_target / input_handling
+    kind = {"ndarray": "bare", "dataarray": f"one {tdn}", "nd": "many"}.get(case["target_kind"], "many")
+    td_tok = "U" if target_data is None else (case["tdata_name"] or "A")
+    ans = drv.ask(f"c08names {kind} {kw.get('target_dim') or 'N'} {td_tok} zc {case['da_name'] or 'N'} "
+                  f"{'N' if case['suffix'] is None else (case['suffix'] or 'E')}").split(" ")
+    new_dims = [d for d in res.dims if d != "e"]
+    if ans != [new_dims[0] if len(new_dims) == 1 else "?", res.name if res.name is not None else "none"]:
+        corr_ok = False
+        detail["names_model"] = {"model": ans, "impl": [new_dims, res.name]}
     for k, c in enumerate(cols):
         th, lv = thetas[k], per_col_levels[k]
         if case["log"]:
